@@ -540,6 +540,95 @@ def rule_auxv_pairs(ctx, R="C18/auxv-pairs"):
     ctx.check(okw, R, "native-word", rl.where(0), "a word is 8 bytes, native (little) endian", "read_long does not decode an 8-byte native-endian word for this target")
 
 
+def rule_dso_extent(ctx, R="C18/dso-extent"):
+    """the LinuxDsoDebug entry names the MDRawDebug record plus the copy of the dynamic section that follows it: the entry's size is the
+    record's own size grown by L, and what is appended right behind the record is the result of copying exactly L bytes from the
+    dynamic section's address — so the entry never names bytes that are not (yet) in the image"""
+    b = ctx.body(R, "linux::dso_debug::write_dso_debug_stream")
+    if b is None:
+        return
+    o = Origin(b)
+    incs = []
+    for bi, blk in enumerate(b.blocks):
+        for si, st in enumerate(blk["stmts"]):
+            if st["k"] == "assign" and st["p"]["proj"] and st["p"]["proj"][-1].get("n") == "data_size":
+                incs.append((bi, si, core(o._rvalue(st["r"], (bi, si), 0))))
+    wbs = [(bi, o.call_args(bi)) for bi, t in b.calls(lambda c: c.endswith("MemoryArrayWriter::write_bytes"))]
+    ctx.floor(R, "size adjustments of the LinuxDsoDebug entry", len(incs), 1)
+    ctx.floor(R, "raw appends in write_dso_debug_stream", len(wbs), 1)
+    if len(incs) != 1 or len(wbs) != 1:
+        ctx.unproven(R, "shape", b.where(0), "expected one data_size adjustment and one raw append (found %d, %d)" % (len(incs), len(wbs)))
+        return
+    bi, si, v = incs[0]
+    ok = v[0] == "bin" and v[1] in ("Add", "AddWithOverflow") and any(q[0] == "call" and q[1].endswith("MemoryWriter::location") for q in walk(v[2]))
+    grow = core(v[3]) if ok else None
+    data = strip(wbs[0][1][1])
+    okd = data[0] == "call" and data[1].endswith("copy_from_process") and len(data[2]) == 3
+    same = okd and grow is not None and nosite(core(data[2][2])) == nosite(grow)
+    ctx.check(ok and okd and same, R, "size=record+copied", b.where(bi, si), "entry size = size of the record + L, and the bytes appended are copy_from_process(pid, dynamic, L)",
+              "the LinuxDsoDebug entry is grown by %s but the bytes appended behind the record are %s" % (show(grow)[:80] if grow else show(v)[:80], show(data)[:100]))
+    if okd:
+        addr = core(data[2][1])
+        rec = [q for q in walk(v[2]) if q[0] == "agg" and q[1].endswith("DSO_DEBUG_64")] if ok else []
+        dynf = core(dict(rec[0][3]).get("dynamic")) if rec else None
+        ctx.check(dynf is not None and nosite(core(addr)) == nosite(dynf) or (dynf is not None and any(nosite(q) == nosite(dynf) for q in walk(addr))), R, "copied-from-dynamic", b.where(wbs[0][0]),
+                  "the copy starts at the address recorded in MDRawDebug.dynamic", "the appended bytes are copied from %s, MDRawDebug.dynamic is %s" % (show(addr)[:60], show(dynf)[:60] if dynf else "?"))
+    # the append directly follows the record: no other allocation between alloc_with_val(debug) and write_bytes
+    allocs = [x for x, t in b.calls(lambda c: (c.short or "").startswith("mem_writer::") and (c.short or "").split("::")[-1] in ("alloc", "alloc_with_val", "alloc_array", "alloc_from_array", "alloc_from_iter", "write_bytes") or (c.short or "").endswith("write_string_to_location"))]
+    rec_alloc = [x for x, t in b.calls(lambda c: c.endswith("MemoryWriter::alloc_with_val")) if "DSO_DEBUG" in (t["callee"].get("inst") or "") or "MDRawDebug" in (t["callee"].get("inst") or "")]
+    okadj = bool(rec_alloc) and not [x for x in allocs if x not in (rec_alloc[0], wbs[0][0]) and witness_path(b, rec_alloc[0], {x}) and witness_path(b, x, {wbs[0][0]})]
+    ctx.check(okadj, R, "adjacent", b.where(wbs[0][0]), "nothing is allocated between the record and the copied section", "another allocation lies between the MDRawDebug record and the copied dynamic section")
+
+
+def rule_dso_load_bias(ctx, R="C18/dso-load-bias"):
+    """the dynamic section of the main program is at p_vaddr(PT_DYNAMIC) + bias, bias = page(AT_PHDR) - p_vaddr of the PT_LOAD that maps
+    file offset 0 — for a PIE (p_vaddr 0) and for a non-PIE executable (p_vaddr = its link address, exactly the page of the program
+    headers) alike: the subtraction is unconditional modular arithmetic under `PT_LOAD && p_offset == 0` and nothing else."""
+    b = ctx.body(R, "linux::dso_debug::write_dso_debug_stream")
+    if b is None:
+        return
+    o = Origin(b)
+    loops = b.loops()
+    ups = []
+    for bi, t in b.calls(lambda c: (c.short or "").split("::")[-1] in ("wrapping_sub", "saturating_sub", "checked_sub")):
+        a = o.call_args(bi)
+        if any(q[0] == "field" and q[2] == "p_vaddr" for q in walk(a[1])) and any(q[0] == "call" and q[1].endswith("get_program_header_address") for q in walk(a[0])):
+            ups.append((bi, (CalleeView(t["callee"]).short or "").split("::")[-1]))
+    for bi, blk in enumerate(b.blocks):
+        for si, st in enumerate(blk["stmts"]):
+            if st["k"] == "assign" and st["r"]["k"] == "binop" and st["r"].get("op") in ("Sub", "SubWithOverflow", "SubUnchecked"):
+                e = core(o._rvalue(st["r"], (bi, si), 0))
+                if e[0] == "bin" and any(q[0] == "field" and q[2] == "p_vaddr" for q in walk(e[3])) and any(q[0] == "call" and q[1].endswith("get_program_header_address") for q in walk(e[2])):
+                    ups.append((bi, "-"))
+    ctx.floor(R, "bias adjustments by a segment's p_vaddr", len(ups), 1)
+    for bi, how in ups:
+        ctx.check(how == "wrapping_sub", R, ("adjust", "modular"), b.where(bi), "bias = page(AT_PHDR).wrapping_sub(p_vaddr)", "the bias is adjusted with `%s`, not modular subtraction (a non-PIE link address equals the page of the program headers)" % how)
+        inner = [h for h, body in loops.items() if bi in body]
+        h = min(inner, key=lambda x: len(loops[x])) if inner else 0
+        dnf = conditions(b, bi, origin=o, entry=h)
+        ok = bool(dnf)
+        extra = []
+        for c in dnf or []:
+            need = {"p_type": False, "p_offset": False}
+            for (q, v) in c:
+                qc = core(q)
+                if qc[0] == "discr":
+                    continue
+                flds = {x[2] for x in walk(qc) if x[0] == "field"}
+                if qc[0] == "bin" and qc[1] == "Eq" and v == 1 and flds == {"p_type"} and is_const(core(qc[3])) and core(qc[3])[1] == 1:
+                    need["p_type"] = True
+                elif qc[0] == "bin" and qc[1] == "Eq" and v == 1 and flds == {"p_offset"} and is_const(core(qc[3])) and core(qc[3])[1] == 0:
+                    need["p_offset"] = True
+                else:
+                    extra.append("%s == %s" % (show(qc)[:70], v))
+            ok = ok and all(need.values())
+        ctx.check(ok and not extra, R, ("adjust", "condition"), b.where(bi), "the adjustment is made for the PT_LOAD segment with p_offset == 0, under no other condition",
+                  "the bias adjustment depends on more than `p_type == PT_LOAD && p_offset == 0`: %s" % ("; ".join(extra[:3]) or "condition not recognised"))
+    adds = [(bi, o.call_args(bi)) for bi, t in b.calls(lambda c: (c.short or "").split("::")[-1] == "wrapping_add")]
+    okdyn = any(any(q[0] == "field" and q[2] == "p_vaddr" for q in walk(a[0])) and any(q[0] == "call" and q[1].endswith("get_program_header_address") for q in walk(a[1])) for bi, a in adds)
+    ctx.check(okdyn, R, "dynamic=vaddr+bias", b.where(adds[0][0]) if adds else b.where(0), "dyn_addr = p_vaddr(PT_DYNAMIC).wrapping_add(bias)", "the dynamic section's address is not p_vaddr + bias")
+
+
 def run(ctx):
     # link-map names, handle link targets and the OS version string go through the shared string helper (same instance as C16/string)
     from rules import c16
@@ -552,6 +641,8 @@ def run(ctx):
     rule_auxv(ctx)
     rule_auxv_pairs(ctx)
     rule_dso(ctx)
+    rule_dso_extent(ctx)
+    rule_dso_load_bias(ctx)
     rule_sysinfo(ctx)
     # the architecture is named also when the CPU details cannot be gathered: it is stored before anything in that step can fail and
     # the record the step filled is the one written (same rule instance as C11/partial-results-kept)
